@@ -283,6 +283,21 @@ class _Tracer:
                 self.sink.add("%s:%s" % (os.path.basename(co.co_filename), co.co_qualname))
 
 
+def _plain(x, depth=0):
+    """results cross a process boundary: keep only plain JSON-like data (proxy values and placeholder strings are rendered)"""
+    if isinstance(x, bool) or x is None or type(x) in (int, float, str):
+        return x
+    if isinstance(x, str):
+        return str.__str__(x) + ""
+    if isinstance(x, dict):
+        return {(_plain(k, depth + 1) if not isinstance(k, (int, str)) or type(k) not in (int, str) else k): _plain(v, depth + 1) for k, v in x.items()} if depth < 8 else "..."
+    if isinstance(x, (list, tuple, set)):
+        return [_plain(v, depth + 1) for v in x] if depth < 8 else "..."
+    if isinstance(x, (int, float)):
+        return x
+    return repr(x)[:200]
+
+
 def _on_alarm(signum, frame):
     raise PathBudget("path ran for more than its wall-clock budget (watchdog)")
 
@@ -345,6 +360,7 @@ def _run_subtree(args):
                  "tb": traceback.format_exc()[-1500:]}
         npaths += 1
         if r is not None:
+            r = _plain(r)
             r.setdefault("status", "ok")
             r["decisions"] = "".join(str(d) if d < 10 else "(%d)" % d for d in e.trace)
             if e.unknown_branch:
